@@ -8,7 +8,7 @@ use crate::model::{F, MV};
 use proptest::prelude::*;
 use serde::{Deserialize, Serialize};
 
-pub const RULE: &str = "(list of length 0..10, and of length 60..200, callee) pairs: the callee is drawn from a table of lambdas of arity 1, 2, optional-index and rest shape, closures, self-recursive (fact, fib) and mutually recursive late-bound (is_even / is_odd) named functions, predicates that fail on some element, non-boolean predicates, anonymous lambdas, and built-ins of every arity class (exactly one, one-or-two, at-least-one, exactly two); both equivalent forms are evaluated in one environment and must give the same value or both fail; reduce is compared with a left fold the harness assembles from single applications; recording callbacks expose the (element, index) protocol; the same recursion written with `n - 1 into f` and with `f(n - 1)` is compared at depths 0..990. Non-trivial = non-empty list and a callee that is named-recursive, of arity != 1, or a built-in; distinct by (list, callee).";
+pub const RULE: &str = "(list of length 0..10, and of length 60..200, callee) pairs: the callee is drawn from a table of lambdas of arity 1, 2, optional-index and rest shape, closures, self-recursive (fact, fib) and mutually recursive late-bound (is_even / is_odd) named functions, predicates that fail on some element, non-boolean predicates, anonymous lambdas, and built-ins of every arity class (exactly one, one-or-two, at-least-one, exactly two); both equivalent forms are evaluated in one environment and must give the same value or both fail; reduce is compared with a left fold the harness assembles from single applications; recording callbacks expose the (element, index) protocol; the same recursion written with `n - 1 into f` and with `f(n - 1)` is compared at depths 0..990; functions that refer to each other and are local to a do-block / function body are used through every form. Non-trivial = non-empty list and a callee that is named-recursive, of arity != 1, or a built-in; distinct by (list, callee).";
 pub const ASSUMPTIONS: &[&str] = &[
     "failure is compared by status (both forms fail / both succeed with equal values), not by message",
     "every/some are compared with the conjunction / disjunction only when the predicate succeeds with a boolean on every element",
@@ -191,6 +191,43 @@ impl Check for Forms {
     }
     fn run(&self, c: &Case, ctx: &mut Ctx) -> Outcome {
         let callee = c.callee.as_str();
+        if callee == "@local" {
+            // functions that reference each other and are local to a do-block or a function body:
+            // every form must find the late-bound partner
+            ctx.label("local-mutual-recursion");
+            ctx.nontrivial(hash_str(&format!("local{:?}", c.l)));
+            let sess = match session() {
+                Ok(s) => s,
+                Err(e) => fail!("harness:prelude", "{}", e),
+            };
+            sess.bind("l", &MV::List(c.l.clone()));
+            let defs = "  ev = n => if n <= 0 then true else od(n - 1)\n  od = n => if n <= 0 then false else ev(n - 1)\n  sq = n => helper(n) + 1\n  helper = n => n * n\n";
+            let forms: [(&str, &str, &str); 6] = [
+                ("via-map", "l via sq", "map(l, sq)"),
+                ("where-filter", "l where ev", "filter(l, ev)"),
+                ("into-apply", "l into (xs => map(xs, sq))", "(xs => (xs via sq))(l)"),
+                ("every", "every(l, ev)", "len(l where ev) == len(l)"),
+                ("some", "some(l, od)", "len(l where od) > 0"),
+                ("reduce", "reduce(l, (a, x) => a + sq(x), 0)", "sum([0, ...(l via sq)])"),
+            ];
+            for (law, a_src, b_src) in forms {
+                for wrapper in ["do {\nDEFS  return EXPR\n}", "(() => do {\nDEFS  return EXPR\n})()", "((l) => do {\nDEFS  return EXPR\n})(l)"] {
+                    let a = sess.probe(&wrapper.replace("DEFS", defs).replace("EXPR", a_src));
+                    let b = sess.probe(&wrapper.replace("DEFS", defs).replace("EXPR", b_src));
+                    if !same(&a, &b) {
+                        fail!(
+                            format!("local:{}:{}/{}", law, status(&a), status(&b)),
+                            "inside a block defining ev / od / sq / helper locally, `{}` gave {:?} but `{}` gave {:?} (l = {})",
+                            a_src, a, b_src, b, MV::List(c.l.clone()).to_source(false)
+                        );
+                    }
+                    if a.is_err() {
+                        fail!(format!("local:{}:both-fail", law), "`{}` fails although every function it needs is defined in the block: {:?}", a_src, a);
+                    }
+                }
+            }
+            return Ok(());
+        }
         if callee == "@deep" {
             // the same recursion written with `x into f` and with `f(x)`, d levels deep
             let sess = match session() {
@@ -378,6 +415,10 @@ pub fn run(ctx: &mut Ctx) {
             let l: Vec<MV> = (0..n).map(|i| num(((i * 5 + 3) % 7) as f64)).collect();
             cases.push(Case { l, callee: callee.clone(), acc, x: num(4.0), init: num(0.0) });
         }
+    }
+    // late-bound partners that are local to a block
+    for l in [vec![], vec![num(0.0)], vec![num(0.0), num(1.0), num(2.0), num(3.0)], vec![num(5.0), num(4.0), num(6.0)]] {
+        cases.push(Case { l, callee: "@local".into(), acc: false, x: MV::Null, init: MV::Null });
     }
     // recursion written with into and with a call, up to just below the call-depth limit
     for d in [0u32, 1, 10, 100, 400, 499, 500, 501, 700, 900, 990] {
